@@ -32,7 +32,7 @@ void vt_end(void) { if (tf) { fputs("}\n", tf); fflush(tf); } pthread_mutex_unlo
 
 // ---------------- entropy ----------------
 typedef struct {
-	uint64_t s; long draws, bytes, fail_at, pos, nfail, high; int failed, log; const char *tag;
+	uint64_t s; long draws, bytes, fail_at, pos, nfail, high; int failed, log, nforced, iforced; uint8_t forced[8][32]; const char *tag;
 	ENT_DRAW ring[256];
 } ENT;
 static __thread ENT ent = { .s = 0x9e3779b97f4a7c15ULL };
@@ -40,7 +40,7 @@ static __thread ENT ent = { .s = 0x9e3779b97f4a7c15ULL };
 uint64_t vh_rand(uint64_t *st) { uint64_t z = (*st += 0x9e3779b97f4a7c15ULL); z = (z ^ (z >> 30)) * 0xbf58476d1ce4e5b9ULL; z = (z ^ (z >> 27)) * 0x94d049bb133111ebULL; return z ^ (z >> 31); }
 void vh_fill(uint64_t *st, uint8_t *p, size_t n) { for (size_t i = 0; i < n; i++) p[i] = (uint8_t)(vh_rand(st) >> 24); }
 
-void ent_seed(uint64_t seed) { ent.s = seed * 0x2545F4914F6CDD1DULL + 0x1234567; ent.pos = 0; ent.high = 0; ent_reset_counters(); }
+void ent_seed(uint64_t seed) { ent.s = seed * 0x2545F4914F6CDD1DULL + 0x1234567; ent.pos = 0; ent.high = 0; ent.nforced = ent.iforced = 0; ent_reset_counters(); }
 void ent_fail_at(long i) { ent.fail_at = i; }
 void ent_reset_counters(void) { ent.draws = ent.bytes = 0; ent.failed = 0; }
 long ent_draws(void) { return ent.draws; }
@@ -50,6 +50,7 @@ long ent_failures(void) { return ent.nfail; }
 void ent_log(int on) { ent.log = on; }
 void ent_tag(const char *t) { ent.tag = t; }
 void ent_high_for(long k) { ent.high = k; }
+void ent_push32(const uint8_t v[32]) { if (ent.nforced < 8) memcpy(ent.forced[ent.nforced++], v, 32); }
 const ENT_DRAW *ent_get(long i) { if (i < 1 || i > ent.draws || ent.draws - i >= 256) return NULL; return &ent.ring[i & 255]; }
 
 int getentropy(void *buf, size_t len)
@@ -64,7 +65,8 @@ int getentropy(void *buf, size_t len)
 		errno = EIO; return -1;
 	}
 	vh_fill(&ent.s, (uint8_t *)buf, len);
-	if (ent.high > 0 && len == 32) { memset(buf, 0xFF, len); ent.high--; }     // a run of draws that no scalar range accepts (the stream position still advances)
+	if (ent.high > 0 && len == 32) { memset(buf, 0xFF, len); ent.high--; }
+	else if (len == 32 && ent.iforced < ent.nforced) memcpy(buf, ent.forced[ent.iforced++], 32);       // values the script chose for the next 32-byte draws     // a run of draws that no scalar range accepts (the stream position still advances)
 	memcpy(d->data, buf, len);
 	ent.pos += (long)len; ent.bytes += (long)len;
 	if (ent.log) { vt_begin("Draw"); vt_str("who", ent.tag ? ent.tag : "-"); vt_int("i", ent.draws); vt_int("n", (long)len); vt_int("ok", 1); vt_int("pos", d->pos); vt_bytes("b", d->data, len); vt_end(); }
